@@ -8,6 +8,7 @@
         descriptor.dir = opendir(nativePath);  ...  wasiDirectorySet(wasiDirFD, descriptor.dir)
     }
     if (cookie != WASI_DIRCOOKIE_START) seekdir(descriptor.dir, (long)cookie);
+    else rewinddir(descriptor.dir);                                   // iff Gen.WasiPath.readdirCallsRewind
     i32_store(memory, bufferUsedPointer, bufferUsed);                 // 0
     while (bufferUsed < bufferLength) {
         ssize_t bufferRemaining = bufferLength - bufferUsed;  U32 resultPointer = bufferPointer + bufferUsed;
@@ -108,8 +109,8 @@ inductive Res
   | unspecified              -- `readdir` on a stream whose position POSIX leaves unspecified
   deriving Repr, DecidableEq
 
-/-- first part of `wasiFDReaddir`: lazy `opendir` (only for cookie 0) and `seekdir` (only for a
-    non-zero cookie).  `.inl r` = early return, `.inr p` = position of the stream before the loop. -/
+/-- first part of `wasiFDReaddir`: lazy `opendir` (only for cookie 0), `seekdir` for a non-zero
+    cookie, `rewinddir` for cookie 0.  `.inl r` = early return, `.inr p` = position of the stream before the loop. -/
 def positionStream (pm : Nat) (d : Dir) (path : Bytes) (dirSt : Option Pos) (mem : Mem) (cookie : Nat) :
     Out (Sum RdResult Pos) :=
   (match dirSt with
@@ -120,7 +121,8 @@ def positionStream (pm : Nat) (d : Dir) (path : Bytes) (dirSt : Option Pos) (mem
      else .val (.inr (opendir d))) >>= fun
   | .inl r => .val (.inl r)
   | .inr p0 =>
-    .val (.inr (if Gen.WasiPath.seekWhenCookie cookie then seekdir d (cookieToLong cookie) else p0))
+    .val (.inr (if Gen.WasiPath.seekWhenCookie cookie then seekdir d (cookieToLong cookie)
+                else if Gen.WasiPath.readdirCallsRewind then rewinddir d p0 else p0))
 
 /-- second part: `i32_store(bufferUsedPointer, 0)`, the loop, `i32_store(bufferUsedPointer, bufferUsed)` -/
 def readFrom (pm : Nat) (d : Dir) (path : Bytes) (p : Pos) (mem : Mem) (bufPtr bufLen usedPtr : Nat) : Out Res := do
